@@ -9,7 +9,10 @@
 
       x/coinomics/keeper/inflation.go  MintAndAllocate   mint to coinomics, send to fee collector
       x/bank/keeper/keeper.go          BurnCoins         gov / bonded / not-bonded: send to distribution and
-                                                         add to the community pool; other modules: burn
+                                                         add to the community pool; other modules: burn.
+                                                         The amount is a coin LIST (a governance deposit may hold
+                                                         any denominations): every coin of the list is sent and
+                                                         every coin of the list is added to the pool
       x/ucdao/keeper                   Fund              send depositor -> dao module
       x/liquidvesting/keeper           Liquidate         send to module, mint liquid denom, send to receiver,
                                                          ConvertCoin (escrow in the erc20 module)
@@ -81,10 +84,43 @@ Definition haqq_burn (s : st) (m d : N) (x : Z) : option st :=
     Some (mkst (bk s1) (zset (pool s1) d (zget (pool s1) d + x)) (outst s1))
   else s_burn s m d x.
 
+(** ---- coin lists (sdk.Coins) ----
+    [amounts] of SendCoins / BurnCoins is a list of (denomination, amount).  The bank accepts it only if it is
+    valid (Coins.Validate): every amount strictly positive, no denomination twice (and sorted by denomination
+    string: the harness and every caller present the list in that order, the model does not know the strings).
+    subUnlockedCoins checks and debits coin after coin and fails as a whole if one coin is not covered (the
+    message's branch of the store is then dropped), addCoins credits coin after coin. *)
+Definition coin_list := list (N * Z).
+
+Fixpoint nodupb (l : list N) : bool :=
+  match l with [] => true | x :: r => negb (existsb (N.eqb x) r) && nodupb r end.
+Definition valid_coins (cs : coin_list) : bool := forallb (fun c : N * Z => 0 <? snd c) cs && nodupb (map fst cs).
+
+(** Coins.AmountOf *)
+Definition amount_of (cs : coin_list) (d : N) : Z :=
+  fold_right (fun (c : N * Z) acc => (if decide (fst c = d) then snd c else 0) + acc) 0 cs.
+
+Fixpoint s_send_coins (s : st) (a c : N) (cs : coin_list) : option st :=
+  match cs with [] => Some s | (d, x) :: r => s1 ← s_send s a c d x; s_send_coins s1 a c r end.
+Fixpoint s_burn_coins (s : st) (m : N) (cs : coin_list) : option st :=
+  match cs with [] => Some s | (d, x) :: r => s1 ← s_burn s m d x; s_burn_coins s1 m r end.
+(** feePool.CommunityPool.Add(NewDecCoinsFromCoins(amounts...)...) *)
+Definition pool_add (p : coins) (cs : coin_list) : coins :=
+  fold_left (fun (p : coins) (c : N * Z) => zset p (fst c) (zget p (fst c) + snd c)) cs p.
+
+(** x/bank/keeper/keeper.go BurnCoins with a coin list *)
+Definition haqq_burn_coins (s : st) (m : N) (cs : coin_list) : option st :=
+  if negb (valid_coins cs) then None else
+  if redirected m then
+    s1 ← s_send_coins s m M_DISTR cs;
+    Some (mkst (bk s1) (pool_add (pool s1) cs) (outst s1))
+  else s_burn_coins s m cs.
+
 Inductive hop :=
 | HSend (a c d : N) (x : Z)                 (* bank send; delegate / undelegate coins with c / a a staking pool *)
 | HMint (m d : N) (x : Z)
 | HBurn (m d : N) (x : Z)                   (* through the Haqq bank keeper *)
+| HBurnCoins (m : N) (cs : list (N * Z))    (* the same with a list of coins of several denominations *)
 | HCoinomicsMint (x : Z)
 | HDaoFund (a d : N) (x : Z)
 | HLiquidate (a c ld : N) (x : Z)           (* from a, liquid tokens to c, liquid denomination ld *)
@@ -98,6 +134,7 @@ Definition hstep (s : st) (o : hop) : option st :=
   | HSend a c d x => s_send s a c d x
   | HMint m d x => s_mint s m d x
   | HBurn m d x => haqq_burn s m d x
+  | HBurnCoins m cs => haqq_burn_coins s m cs
   | HCoinomicsMint x =>
       s1 ← s_mint s M_COINOMICS BASE x; s_send s1 M_COINOMICS M_FEECOLL BASE x
   | HDaoFund a d x => s_send s a M_DAO d x
@@ -156,10 +193,22 @@ Definition load (o : obs) : st := mkst (mkbank (load_bal (o_bal o)) (load_coins 
     (operation, did the implementation accept it, state after) *)
 Definition case := (list N * obs * list (hop * bool * obs))%type.
 
+(** Operations whose failure conditions the model transcribes completely (a burn through the Haqq bank
+    keeper from a module account that may burn: invalid coin list, or a coin not covered).  For these a
+    rejection by the implementation must be a rejection in the model too; for the other operations the
+    implementation has further reasons to refuse (vesting schedules, allowed denominations, blocked
+    addresses, ...) that are not part of this model, and a refused operation only has to leave no trace. *)
+Definition burner (m : N) : bool := existsb (N.eqb m) [M_BONDED; M_NOTBONDED; M_GOV; M_LV; M_ERC20; M_EVM].
+Definition rejection_modelled (o : hop) : bool :=
+  match o with HBurn m _ _ | HBurnCoins m _ => burner m | _ => false end.
+Definition accepts (s : st) (o : hop) : bool := match hstep s o with Some _ => true | None => false end.
+
 Fixpoint check_steps (ds : list N) (s : st) (h : list (hop * bool * obs)) : bool :=
   match h with
   | [] => true
   | (o, ok, ob) :: r =>
+      if negb ok && rejection_modelled o && accepts s o then false   (* refused by the implementation only *)
+      else
       match (if ok then hstep s o else Some s) with
       | None => false                              (* accepted by the implementation, impossible in the model *)
       | Some s' => if bool_decide (observe ds s' = ob) then check_steps ds s' r else false
